@@ -18,9 +18,12 @@
 (*            with), eq / eqm (float = exp / mod within 1e-9), vi (value*1000)   *)
 (* The spec actions are re-executed on the recorded arguments (Pick, the token  *)
 (* pushes, Finalize, one Round per timestamp); the clauses are evaluated on the *)
-(* recorded observations.  A false clause is written to IOEnv.VERDICT_FILE with *)
-(* the deviations whose cause predicate fired on that very input - provided the *)
-(* code did exactly what the transcription does - and the trace continues.      *)
+(* recorded observations.  A false clause is written to IOEnv.VERDICT_FILE and  *)
+(* the trace continues.  The transcription follows the repaired step classes;   *)
+(* a failing record that came out exactly as the LEGACY semantics of a step     *)
+(* class give it, on an input where that class met its cause (NaN second        *)
+(* operand of min/max, zero divisor), carries the name of that former defect    *)
+(* in `deviations` (Dev_MinMaxDropsNaNOperand, Dev_DivisionByZeroDropsSample).  *)
 EXTENDS FormulaCompile
 
 VARIABLES tid, l, acc
@@ -36,7 +39,7 @@ Fail(clause, detail, devs) ==
 Check(ok, clause, detail, devs) == IF ok THEN TRUE ELSE Fail(clause, detail, devs)
 
 Acc0 == [c05 |-> 0, noneiff |-> 0, wantnone |-> 0, zero |-> 0, twin |-> 0, sample |-> 0,
-         devminmax |-> 0, devdiv0 |-> 0, cov |-> {}]
+         causeminmax |-> 0, causediv0 |-> 0, cov |-> {}]
 
 ZOf(z) == [leaf |-> z.leaf, glob |-> z.glob]
 
@@ -98,9 +101,17 @@ TRound ==
               obsNum == r.cls = "num"
               conform == /\ r.cnt = mo.cnt
                          /\ mo.cnt = 1 => (IF IsNaN(mo.v) THEN obsNone ELSE obsNum /\ r.eqm)
-              fired == (IF mo.drop THEN <<"Dev_MinMaxDropsNaNOperand">> ELSE <<>>) \o
-                       (IF mo.exc = "ZeroDivisionError" THEN <<"Dev_DivisionByZeroDropsSample">> ELSE <<>>)
-              devs == IF conform THEN fired ELSE <<>>
+              \* the recorded outcome is what outcome o of a legacy run says (numbers through vi)
+              nearVi(v) == /\ Abs(r.vi) < 1000000 /\ v[2] < 1000 /\ Abs(v[1]) < 1000000
+                           /\ Abs(r.vi * v[2] - 1000 * v[1]) <= v[2]
+              asLegacy(o) == /\ r.cnt = o.cnt
+                             /\ o.cnt = 1 => (IF IsNaN(o.v) THEN obsNone ELSE obsNum /\ nearVi(o.v))
+              leg(lg) == RoundOfSem(front, zc, b, env, lg)
+              devMinMax == \E lg \in {LegMinMax, LegBoth} : leg(lg).drop /\ asLegacy(leg(lg))
+              devDiv0 == \E lg \in {LegDiv, LegBoth} : leg(lg).div0 /\ asLegacy(leg(lg))
+              devs == IF conform THEN <<>>
+                      ELSE (IF devMinMax THEN <<"Dev_MinMaxDropsNaNOperand">> ELSE <<>>) \o
+                           (IF devDiv0 THEN <<"Dev_DivisionByZeroDropsSample">> ELSE <<>>)
               what == <<"inp", env, "cnt", r.cnt, "cls", r.cls, "vi", r.vi, "intended", W,
                         "transcription", <<mo.cnt, mo.v, mo.exc>>>>
               a05 == Finite(env, used) /\ ~IsNaN(W)
@@ -128,8 +139,8 @@ TRound ==
                         !.zero = @ + (IF aZero /\ ~IsNaN(W) THEN 1 ELSE 0),
                         !.twin = @ + (IF aZero THEN Cardinality(twins) ELSE 0),
                         !.sample = @ + 1,
-                        !.devminmax = @ + (IF mo.drop THEN 1 ELSE 0),
-                        !.devdiv0 = @ + (IF mo.exc = "ZeroDivisionError" THEN 1 ELSE 0),
+                        !.causeminmax = @ + (IF mo.drop THEN 1 ELSE 0),
+                        !.causediv0 = @ + (IF mo.div0 THEN 1 ELSE 0),
                         !.cov = @ \cup CovKeys(env)]
     /\ l' = l + 1 /\ UNCHANGED tid
     /\ (l' - 1 > Len(Tr.rounds)) => Done
